@@ -316,3 +316,6 @@ func MustNotBlock(label string, f func()) {
 		panic(Diverged{Why: "blocked: " + label})
 	}
 }
+
+// Now is the current time (for the executor: an arbitrary instant not before any earlier one).
+func Now() time.Time { return time.Now() }
